@@ -205,6 +205,15 @@ PostNintDistance(x, n, o) ==
      /\ IF DyIsZero(diff) THEN o.k = "ninf"
         ELSE o.k = "i" /\ DyCmpAbs(diff, Dy(ZOne, o.v - 1)) >= 0 /\ DyCmpAbs(diff, Dy(ZOne, o.v + 1)) <= 0
 
+\* the same for a rational x = (-1)^neg N / D (mpq arguments): x - n = (P - n D) / D
+PostNintDistanceQ(neg, N, D, n, o) ==
+  LET P == IF neg THEN ZNeg(N) ELSE N
+      a == ZAbs(ZSub(P, ZMul(n, D)))
+      CmpShift(k) == IF k >= 0 THEN ZCmp(a, ZShl(D, k)) ELSE ZCmp(ZShl(a, -k), D)      \* sign(|x - n| - 2^k)
+  IN /\ ZCmp(ZShl(a, 1), D) <= 0
+     /\ IF ZIsZero(a) THEN o.k = "ninf"
+        ELSE o.k = "i" /\ CmpShift(o.v - 1) >= 0 /\ CmpShift(o.v + 1) <= 0
+
 (*************************** C09: machine floats ***************************)
 \* IEEE double from its fields: sign, biased exponent be (0..2047), 52-bit fraction fr (Z)
 F64Val(s, be, fr) ==
